@@ -27,7 +27,7 @@ REQUIRED = {"grammar.fault_free": {"quick": 100, "thorough": 5000}, "grammar.und
             "fault.before_phase_suppresses_body": {"quick": 800, "thorough": 60000},
             "fault.run_fails": {"quick": 3000, "thorough": 200000}, "model.hook_sequence": {"quick": 80, "thorough": 4000},
             "dry_run.no_hooks": {"quick": 5, "thorough": 300}}
-REQUIRED_SEEN = {"hook_decoration": ["capture", "plain"], "fault_hook": ["before_all", "after_all", "before_feature", "after_feature", "before_rule", "after_rule",
+REQUIRED_SEEN = {"hook_decoration": ["capture", "plain"], "hook_habit": ["reads_status_of_its_element", "plain"], "fault_hook": ["before_all", "after_all", "before_feature", "after_feature", "before_rule", "after_rule",
                                 "before_scenario", "after_scenario", "before_step", "after_step", "before_tag", "after_tag"],
                  "tag_hook_owner_kind": ["feature", "rule", "scenario"]}
 EXHAUSTIVE = True
@@ -404,8 +404,29 @@ def run(spec, mon):
     for i in range(n):
         gen = {"outcomes": outs, "p_tag": 0.5, "p_nonpass": 0.2, "max_features": 2, "max_items": 2, "max_steps": 2,
                "p_empty_examples": 0.0, "p_stepless": 0.0, "p_param_tag": 0.4}
-        case = RB.gen_case(rng, gen=gen, p_stop=0.25, p_dry=0.08, p_noskipped=0.3, p_user_skip=0.15)
+        if i % 4 == 2:
+            # scenarios without any step (title and tags only) in features without background, skipped by the environment:
+            # a skipped element gets no hook, however little there is in it
+            gen.update({"p_stepless": 0.3, "p_background": 0.0, "p_rule_background": 0.0})
+        case = RB.gen_case(rng, gen=gen, p_stop=0.25, p_dry=0.08, p_noskipped=0.3, p_user_skip=0.6 if i % 4 == 2 else 0.15)
+        if i % 4 == 2 and case["program"].get("user_skip"):
+            mon.seen("environment_skips_container_with_stepless_scenarios", "yes")
         lab.capture_hooks = None
+        lab.extra_hook_plugins = None
+        if i % 2 == 1:
+            # hooks that LOOK at the element they are called for (if scenario.status == "failed": ...) before anything else
+            def reader(state, context, name, elem, tag):
+                for obj in (elem, getattr(context, "scenario", None), getattr(context, "rule", None), getattr(context, "feature", None)):
+                    if obj is not None and hasattr(obj, "status"):
+                        try:
+                            _ = obj.status
+                        except Exception:
+                            pass
+            lab.extra_hook_plugins = [reader]
+            case["hooks_read_status"] = True
+            mon.seen("hook_habit", "reads_status_of_its_element")
+        else:
+            mon.seen("hook_habit", "plain")
         if i % 3 == 1:
             # some hooks are decorated with behave's @capture (log capture for environment functions): a decorated hook is a
             # hook like any other -- what it raises is a hook failure
@@ -421,12 +442,19 @@ def run(spec, mon):
                 fault_then_clean_run(lab, mon, case, rng)
         finally:
             lab.capture_hooks = None
+            lab.extra_hook_plugins = None
 
 
 def replay(case, mon):
     from ..lab.inproc import RunLab
     lab = RunLab()
     lab.capture_hooks = set(case.get("capture_decorated_hooks") or ()) or None
+    if case.get("hooks_read_status"):
+        def reader(state, context, name, elem, tag):
+            for obj in (elem, getattr(context, "scenario", None), getattr(context, "rule", None), getattr(context, "feature", None)):
+                if obj is not None and hasattr(obj, "status"):
+                    _ = obj.status
+        lab.extra_hook_plugins = [reader]
     pred = runmodel.predict(case["program"], case["cfg"])
     struct = Struct(case["program"], pred)
     base = {k: v for k, v in case.items() if k != "hook_fault"}
